@@ -40,6 +40,39 @@ def name_map(d):
     return m
 
 
+# Element names in the file (free text in version 2, docs/attestation.md) - boundary-first members
+SUB_NAMES = ("s", "x", "_", "root", "sgx", "sgx_", "_root", "gx_roo", "g", "r", "oot", "t", "")   # proper substrings
+ODD_NAMES = ("sgx_root2", "xsgx_root", "sgx_root ", " sgx_root", "sgx_rootsgx_root",                 # super-strings
+             "SGX_ROOT", "Sgx_Root", "sgx_Root", "SGX",                                              # case variants
+             "device", "ui", "signer", "attestation_v1",                                             # version-1 words
+             "platform ca", " ", "quoting\tenclave", "name\nwith newline", "pck-\u00e9\u4e2d\u6587",    # blanks, non-ASCII
+             "n" * 3000, "sgx_" * 600 + "root")                                                      # very long
+PSEUDO = {"other", "wrong", "nokey", "foreign", "ghost_ca", "nobody", "ROT", "none"}
+
+
+def label_name(label, n, m, rng):
+    """A concrete name of class `label` for model element n (unique among the names in m)."""
+    taken = set(m.values()) | PSEUDO
+    if label == "sub":
+        cands = [x for x in SUB_NAMES if x not in taken]
+    else:
+        cands = [x for x in ODD_NAMES if x not in taken]
+        # another element's name in another case ("two elements whose names differ only in case")
+        cands += [v.swapcase() for k, v in m.items() if k != n and v.swapcase() != v
+                  and v.swapcase() not in taken and k in ("att", "quote", "x1", "x2", "x3")]
+    return rng.choice(cands)
+
+
+def plan_names(b, rng):
+    """Model element name -> name in the file, for one concretisation."""
+    d, _k = shape(b)
+    m = name_map(d)
+    for n, e in sorted(b["cert"].items()):
+        if e.get("label", "plain") != "plain":
+            m[n] = label_name(e["label"], n, m, rng)
+    return m
+
+
 def orig_parent(n, d, spare_kind):
     if n == "quote":
         return "att"
@@ -58,10 +91,10 @@ def time_sensitive(b):
         any(e.get("win", "all") not in ("all", "na") for e in b["cert"].values())
 
 
-def mapped_abstract(b):
+def mapped_abstract(b, names=None):
     """The TLC certificate with the concrete element names (to compare with what was realised)."""
     d, _k = shape(b)
-    m = name_map(d)
+    m = names or name_map(d)
     cert = {}
     for n, e in b["cert"].items():
         e2 = dict(e)
@@ -71,7 +104,7 @@ def mapped_abstract(b):
         cert[m[n]] = e2
     rot = dict(b["rot"])
     rot["key"] = m[rot["key"]]
-    return {"cert": cert, "rot": rot, "target": "quote"}
+    return {"cert": cert, "rot": rot, "target": m["quote"]}
 
 
 ATT_BIND_VARIANTS = ("noauth", "misplaced", "reversed", "otherkey", "random", "truncated", "swappedkey")
@@ -179,13 +212,18 @@ def plans_for(b, rng, nflip):
     (key encoding, element order, auth data length, report-data tail, same-key root...) are seeded
     random members."""
     d, spare_kind = shape(b)
-    m = name_map(d)
     cert = b["cert"]
     flippable = False
 
     def mk(flip_mode):
         nonlocal flippable
+        m = plan_names(b, rng)
         sp = certv2.default_spec(d)
+        for i in range(d):
+            sp["x509"][i]["name"] = m["x%d" % (i + 1)]
+            sp["x509"][i]["label"] = cert["x%d" % (i + 1)].get("label", "plain")
+        sp["attkey"].update(name=m["att"], label=cert["att"].get("label", "plain"))
+        sp["quote"].update(name=m["quote"], label=cert["quote"].get("label", "plain"))
         flips = []
         sp["shuffle"] = rng.random() < 0.5
         sp["pem_newlines"] = rng.random() < 0.3
@@ -206,7 +244,8 @@ def plans_for(b, rng, nflip):
             else {"wrong": "fresh", "foreign": "foreign"}.get(b["rot"]["key"], "top")
         if spare_kind != "none":
             ex = {"name": m["spare"], "parent": m[orig_parent("spare", d, spare_kind)],
-                  "time": "Valid", "curve": "P256", "sig": "parent"}
+                  "time": "Valid", "curve": "P256", "sig": "parent",
+                  "label": cert["spare"].get("label", "plain")}
             if spare_kind == "twin":
                 ex["samekey_as"] = m["x%d" % d]
             sp["extra"] = [ex]
@@ -293,7 +332,8 @@ def plans_for(b, rng, nflip):
         tz = b.get("tz", "utc")
         if tz != "utc":
             sp["time_edge"] = True      # an offset matters where the clock is a step from a boundary
-        return {"spec": sp, "flips": flips, "clocks": list(b["clks"]) if sp["timeline"] else None, "tz": tz}
+        return {"spec": sp, "flips": flips, "clocks": list(b["clks"]) if sp["timeline"] else None, "tz": tz,
+                "names": m}
 
     plans = [mk(False)]
     if flippable:
@@ -757,6 +797,11 @@ def defects_of(abstract):
             out.append("%s:binds=F" % k)
         if k == "attkey" and not e["keyValid"]:
             out.append("attkey:key=invalid")
+    for n in cert:
+        if n != ROOT and n in ROOT:
+            out.append("element-name-is-substring-of-root-name")
+        elif n != ROOT and (len(n) > 40 or not all(ch.islower() or ch.isdigit() or ch == "_" for ch in n)):
+            out.append("element-name:unusual")
     nx = sum(1 for n, e in cert.items() if e["kind"] == "x509" and n != ROOT)
     if nx > 3:
         out.append("x509-elements:%s" % ("4..255" if nx < 256 else "256+"))
@@ -792,7 +837,9 @@ def random_plan(rng):
     def fresh_name(base):
         while True:
             n = base if rng.random() < 0.5 else "%s_%x" % (base[:6], rng.getrandbits(24))
-            if n not in names and n != ROOT:
+            if rng.random() < 0.15:      # names are free text: substrings / variants of the reserved one ...
+                n = rng.choice(SUB_NAMES + ODD_NAMES)
+            if n not in names and n != ROOT and n not in PSEUDO:
                 names.add(n)
                 return n
     for i, xs in enumerate(sp["x509"]):
@@ -823,6 +870,7 @@ def random_plan(rng):
             xs["naming"] = rng.choice(opts)
     a, q = sp["attkey"], sp["quote"]
     a["name"] = fresh_name("attestation")
+    q["name"] = fresh_name("quote")
     a["auth_len"] = rng.choice((1, 16, 32, 100, 1000, rng.randrange(1, 1001)))
     a["encoding"] = rng.choice(("uncompressed", "raw"))
     a["bind"] = rng.choice(ATT_BIND_VARIANTS[:-1]) if bad() else rng.choice(("ok", "ok_tail"))
@@ -895,7 +943,7 @@ def rsa_issues_x509(plan):
 # ------------------------------------------------------------------------------------------------
 # the check
 # ------------------------------------------------------------------------------------------------
-SYS_ACTIONS = ("Mutate", "MutateName", "Stretch", "Shift", "Lengthen", "Start", "ParseStep", "Build", "Walk", "Tick")
+SYS_ACTIONS = ("Mutate", "MutateName", "Stretch", "Shift", "Lengthen", "Relabel", "Start", "ParseStep", "Build", "Walk", "Tick")
 
 
 def payload_of(t):
@@ -1083,7 +1131,22 @@ def run(ctx):
         nl = [b for b in rest if b["outcome"] != "loaderror" and not (b["nren"] == 1 and timedef(b))][:300]
         le = [b for b in rest if b["outcome"] == "loaderror"][:100]
         lg = [b for b in rest if b["len"] == "long"][:30]       # long chains with one more deviation
-        chosen = must + rt + nl + le + [b for b in lg if b not in rt and b not in nl and b not in le]
+        # unusual element names x one more deviation (re-parenting first: a parent reference is where a
+        # name is used)
+        def labelled(b):
+            return any(e.get("label", "plain") != "plain" for e in b["cert"].values())
+
+        def reparented(b):
+            dd, sk = shape(b)
+            return any(e["by"] != orig_parent(n, dd, sk) for n, e in b["cert"].items())
+        lb = [b for b in rest if labelled(b) and reparented(b) and plain(b)][:200] + \
+             [b for b in rest if labelled(b) and not reparented(b)][:100]
+        chosen = must + rt + nl + le
+        seen_ids = {id(b) for b in chosen}
+        for b in lg + lb:
+            if id(b) not in seen_ids:
+                seen_ids.add(id(b))
+                chosen.append(b)
         nflip = 2
     else:
         # every certificate; of the four clock histories of a time-sensitive certificate with more than
@@ -1106,7 +1169,8 @@ def run(ctx):
         plans = plans_for(b, ctx.rng, 1 if few else nflip)
         for pi, plan in enumerate(plans):
             tid += 1
-            tasks.append((tid, ctx.seed, plan, {"src": "model", "plan": pi}, ctx.scratch))
+            tasks.append((tid, ctx.seed, plan, {"src": "model", "plan": pi, "names": plan["names"]},
+                          ctx.scratch))
             by_id[tid] = b
     _t0 = time.time()
     traces = run_tasks(tasks)
@@ -1117,13 +1181,16 @@ def run(ctx):
         b = by_id.get(t["id"])
         if b is None:        # an extra observation (answer changed after a query with another root)
             continue
-        want = mapped_abstract(b)
+        want = mapped_abstract(b, t["meta"].get("names"))
         got = t.get("final") or t            # (a history: TLC's record shows the LAST instant)
         if deflate(got["cert"], t.get("fillers") or ()) != want["cert"] or got["rot"] != want["rot"] \
                 or t["unspecified"]:
+            gc = deflate(got["cert"], t.get("fillers") or ())
+            diff = {n: (gc.get(n), want["cert"].get(n)) for n in set(gc) | set(want["cert"])
+                    if gc.get(n) != want["cert"].get(n)}
             raise core.MachineryError("concretisation does not realise the abstract certificate: "
-                                      "%s vs %s" % (json.dumps(t["cert"], sort_keys=True)[:600],
-                                                    json.dumps(want["cert"], sort_keys=True)[:600]))
+                                      "%s ; rot %s vs %s" % (json.dumps(diff, sort_keys=True)[:900],
+                                                             got["rot"], want["rot"]))
         obs = t.get("history_outcomes") or ["valid" if t["valid"] else ("invalid" if t["loaded"]
                                                                         else "loaderror")]
         if obs != list(b["outs"])[:len(obs)]:
